@@ -495,3 +495,21 @@ package engine
 //@ func (c Changelog) ChangedIntervals() (ivals)
 //@   trusted computes plus minus minus with go-intervals (dependency; summarised)
 //@   assigns nothing
+
+// A change is compiled from its '-' and '+' sides; every '+' elision must be associated with a '-'
+// elision, otherwise the change is rejected (the association error must not be lost).
+//@ func (c *compiler) compileChange(achange) (change)
+//@   requires achange != nil && achange.Meta != nil && achange.Patch != nil
+//@   requires typing: forall i int {achange.Meta.Vars[i]} :: 0 <= i && i < len(achange.Meta.Vars) ==> achange.Meta.Vars[i] != nil && achange.Meta.Vars[i].Type != nil && forall j int {achange.Meta.Vars[i].Names[j]} :: 0 <= j && j < len(achange.Meta.Vars[i].Names) ==> achange.Meta.Vars[i].Names[j] != nil
+//@   assigns c.errors, elems(c.errors), metaErrors, allof("E.token_Pos"), allof("MH.Int.Int"), allof("MV.Int.Int")
+
+//@ func connectDots(fset, lhs, rhs, conns) (err)
+//@   trusted elision association by patch position (sorting and binary search through closures; summarised)
+//@   assigns elems(lhs), elems(rhs), allof("MH.Int.Int"), allof("MV.Int.Int")
+
+//@ func (c *matcherCompiler) compileFile(file) (m)
+//@   trusted compile-side summary
+//@   assigns c.dots, elems(c.dots)
+//@ func (c *replacerCompiler) compileFile(file) (m)
+//@   trusted compile-side summary
+//@   assigns c.dots, elems(c.dots)
